@@ -67,6 +67,13 @@ def order(tier, pol, cap=1):
     return _i("order_%s%d" % (pol, cap), progs, acts, cap=cap, pol=pol, red_script=rs, max_tasks=mt)
 
 
+def order_thunk(tier):
+    """a thunk that dispatches and then goes on running, racing ordinary dispatches: once its dispatch()
+    has returned the action is queued, ahead of everything dispatched afterwards"""
+    progs = [{"c1": [TH(3), D(1, "impl")], "c2": [D(2, "trait")] + STOP}]
+    return _i("order_thunk", progs, {1: 0, 2: 0, 3: 0}, cap=2, max_tasks=1)
+
+
 def deep_queue(pol, cap=3):
     """one producer, a queue of capacity 3 and the reducer free to take items at any moment: the
     pop / retry logic of the drop policies with several items queued"""
@@ -460,7 +467,7 @@ def table(pid, tier):
                  free=[(b, 150 if q else 1500), (c, 60 if q else 600), (e, 40 if q else 600)])
     elif pid == "C02":
         insts = [order(tier, p) for p in ("block", "oldest", "latest")] + [deep_queue("oldest"), deep_queue("latest"),
-                                                                          mw_dispatch("block")]
+                                                                          mw_dispatch("block"), order_thunk(tier)]
         inv = ["C02_Order", "C02_ReduceOrder", "C11_Followup"]
         T = dict(mc=[(i, inv, []) for i in insts], gen=[(i, 350 if q else 10000) for i in insts],
                  free=[(i, 40 if q else 600) for i in insts])
@@ -543,11 +550,11 @@ def table(pid, tier):
                  free=[(i, 100 if q else 1000) for i in insts],
                  live=[(i, ["Live_ClientsDone"]) for i in insts])      # the consumer's next() always returns
     elif pid == "C15":
-        insts = [stop_race(tier, "block", 3), stop_race(tier, "block", 4)] + \
+        insts = [stop_race(tier, "block", 3), stop_race(tier, "block", 4), stop_race(tier, "latest", 3)] + \
             ([] if q else [stop_race(tier, "oldest", 3), stop_race(tier, "block", 5)])
-        inv = ["C04_Barrier", "C04_ErrNeverReduced", "C10_Flush"]
-        T = dict(mc=[(i, inv, ["C04_Final"]) for i in insts], gen=[(i, 700 if q else 15000) for i in insts[:2]],
-                 free=[(i, 80 if q else 600) for i in insts])
+        inv = ["C04_Barrier", "C04_ErrNeverReduced", "C10_Flush", "C09_Released"]
+        T = dict(mc=[(i, inv, ["C04_Final"]) for i in insts], gen=[(i, 500 if q else 15000) for i in insts[:3]],
+                 free=[(i, 60 if q else 600) for i in insts])
     elif pid == "C18":
         insts = [burst(tier, "oldest", 1), middleware(tier, 2), effects(tier, 0), stop_race(tier, "latest", 0)]
         inv = ["C18_Balance", "C06_Conservation"]
